@@ -1,9 +1,12 @@
+mod alloc;
 mod c01;
 mod c02;
 mod c03;
 mod c04;
 mod c05;
 mod c06;
+mod c07;
+mod c08;
 mod c09;
 mod c10;
 mod sweep;
@@ -17,6 +20,9 @@ mod gen;
 mod xlate;
 
 use ctx::{Ctx, Tier};
+
+#[global_allocator]
+static GLOBAL: alloc::Counting = alloc::Counting;
 use serde_json::Value;
 use std::io::BufRead;
 
@@ -33,6 +39,8 @@ fn dispatch_run(prop: &str, ctx: &mut Ctx) -> bool {
         "C04" => c04::run(ctx),
         "C05" => c05::run(ctx),
         "C06" => c06::run(ctx),
+        "C07" => c07::run(ctx),
+        "C08" => c08::run(ctx),
         "C09" => c09::run(ctx),
         "C10" => c10::run(ctx),
         "C12" => c12::run(ctx),
@@ -52,6 +60,8 @@ fn dispatch_replay(prop: &str, ctx: &mut Ctx, scenario: &Value) -> Result<(), St
         "C04" => c04::replay(ctx, scenario),
         "C05" => c05::replay(ctx, scenario),
         "C06" => c06::replay(ctx, scenario),
+        "C07" => c07::replay(ctx, scenario),
+        "C08" => c08::replay(ctx, scenario),
         "C09" => c09::replay(ctx, scenario),
         "C10" => c10::replay(ctx, scenario),
         "C12" => c12::replay(ctx, scenario),
@@ -71,6 +81,10 @@ fn main() {
     let k = drv::compiled_k();
     if cmd == "consts" {
         println!("{}", serde_json::to_string(&k).unwrap());
+        return;
+    }
+    if cmd == "c07child" {
+        c07::child(&args);
         return;
     }
     if cmd == "anchor" {
@@ -95,6 +109,7 @@ fn main() {
     let out = arg(&args, "--out").map(str::to_string);
     let resume_after: u64 = arg(&args, "--resume-after").and_then(|s| s.parse().ok()).unwrap_or(0);
     ctx::install_panic_hook();
+    ctx::start_watchdog(if tier == Tier::Quick { 90 } else { 400 });
     if cmd == "replay" {
         // each line: {"prop": "...", "scenario": {...}}
         let file = arg(&args, "--file").expect("--file");
